@@ -21,4 +21,5 @@ def build(bin_step, py_step, miri_step, fuzz_step):
     S["C19"] = [bin_step("c19")]
     S["C10"] = [py_step("gen_chain")]
     S["C17"] = [py_step("gen_reject")]
+    S["C18"] = [py_step("gen_parser_method")]
     return S
